@@ -54,7 +54,7 @@ def check(prop, tier, replay_file=None):
             bad = vlib.tlc_failed(out)
             if bad or "No error has been found" not in out or "Postcondition" in out:
                 raise vlib.Inconclusive("store validation batch %d did not complete (%s):\n%s" % (bi, bad, out[-2000:]))
-            for m in re.finditer(r'<<"VIOLATION", (\d+), \{([^}]*)\}>>', out):
+            for m in re.finditer(r'<<\s*"VIOLATION",\s*(\d+),\s*\{([^}]*)\}\s*>>', out, re.S):
                 h = hs[int(m.group(1)) - 1]
                 for c in re.findall(r'"(\w+)"', m.group(2)):
                     if c.startswith("C15_"):
